@@ -119,6 +119,15 @@ Print Assumptions C10_kernels_config_invariant.
    same basis whose penalty arrays denote the same matrix Q -- each in the layout of its own `lower`
    flag, i.e. banded_solver < 4 or = 4 -- and either path on either side, the calls are well formed
    and denote the SAME matrix B'WB + Q and right-hand side B'Wy (+ rhs_extra). *)
+(* the last assembly step of the banded beads path, `temp[2:-2] += BTB` (statement pinned by the translator): the slice
+   addition aligns the main diagonals, the array handed to solve_banded stores A D A + B B for every n and band count u *)
+From PB Require Import C10.BeadsAlign.
+Theorem C10_beads_lhs_aligned : forall (u N : Z) (temp btb : arr) (X Y : Z -> Z -> Z),
+  0 <= u -> Rep LFull (u + 2) N temp X -> Rep LFull u N btb Y -> Banded N u Y ->
+  Rep LFull (u + 2) N (slice_add2 temp btb) (fun i j => X i j + Y i j).
+Proof. exact beads_lhs_aligned. Qed.
+Print Assumptions C10_beads_lhs_aligned.
+
 (* every place where the package consults its optional dependencies is a known, modelled one: a new
    flag-conditional branch anywhere in pybaselines (enumerated from the source on every run) breaks this *)
 From PB Require Import C10.Sites.
